@@ -22,7 +22,25 @@ func c03WalkTrace(wn *WalkerNode) string {
 // callback walk, iterator walk; the deprecated aliases agree with their replacements.
 func VerifC03() {
 	n := verifN()
-	root, _ := buildProgram(n-1, verifName, "C03.add")
+	// the program: NewRoot, then n-1 Adds; optionally some From-Root call runs between two Adds (any position)
+	root := &mNode{name: verifName("name")}
+	root.real = NewRoot(root.name)
+	nodes := []*mNode{root}
+	callAt := int(verifChoose("callAt", 0, uint(n-1))) // n-1: no call in between
+	for i := 0; i < n-1; i++ {
+		if i == callAt {
+			switch verifChoose("between", 0, 1) {
+			case 0:
+				OutputFromRoot(newVerifWriter(), root.real)
+			case 1:
+				WalkFromRoot(root.real, func(*WalkerNode) error { return nil })
+			}
+		}
+		p := nodes[verifChoose("parent", 0, uint(len(nodes)-1))]
+		if c, created := mAdd(p, verifName("name"), "C03.add"); created {
+			nodes = append(nodes, c)
+		}
+	}
 	var rows []string
 	mMarkdownRows(root, 0, &rows)
 	op := verifChoose("op", 0, 3)
